@@ -1,14 +1,43 @@
-(* Props/C10.v — property theorems only (model follows /repo after fixes a910e27, 9415d49). *)
+(* Props/C10.v — property theorems only (model follows /repo after fixes a910e27, 9415d49, 1acccfe, 2d9b577). *)
 From GE Require Import Lib.Bytes Lib.Sha256 Model.Tx Model.TxHash Model.SigValidate Proofs.SigValidate.
 Open Scope N_scope.
 
-(* valid_only_if, every conjunct of the DESIGN statement: a valid verdict implies the input
-   carries signatures, a supplied previous transaction hashes to the outpoint txid (v0 and
-   v2), and - provided the classified script is not a malformed OP_0 program, the one thing
-   address.GetScriptType does not look at - every partial signature verifies under its key
-   the digest computed from the script and amount of the output actually spent (redeem and
-   witness scripts being the committed pre-images) with the key's hex in the disassembly of
-   the script being satisfied *)
+(* valid_only_if, the full DESIGN statement, for every packet (v0 and v2): a valid verdict
+   implies the input carries signatures, every partial signature verifies under its key the
+   digest computed from the script and amount of the output actually spent (redeem / witness
+   scripts being the committed pre-images), the key or its HASH160 is a data push of the
+   script being satisfied, and a supplied previous transaction hashes to the outpoint txid.
+   Hypotheses: only the sizes of the byte strings the key test compares. *)
+Theorem C10_valid_only_if :
+  forall digest parse_pk der_ok verify hash160,
+    (forall pub ck, parse_pk pub = Some ck -> length ck = 33%nat) ->
+    (forall b, length (hash160 b) = 20%nat) ->
+    forall v p i, vs_validate_input digest parse_pk der_ok verify hash160 v p i = VOk true ->
+      exists inp, nth_error (svp_ins p) i = Some inp /\ svi_sigs inp <> [] /\
+        (forall s, In s (svi_sigs inp) -> sig_genuine digest parse_pk der_ok verify hash160 v p i inp s) /\
+        prev_tx_matches v p i inp.
+Proof. exact valid_only_if. Qed.
+Print Assumptions C10_valid_only_if.
+
+(* the key test is byte-exact: it holds iff some data push is the compressed key or the
+   HASH160 of the key bytes, and then those bytes occur contiguously in the script *)
+Theorem C10_key_test_exact :
+  forall hash160 ck pub ts,
+    vs_key_in_pushes hash160 ck pub ts = true <->
+    exists op d, In (op, Some d) ts /\ (d = ck \/ d = hash160 pub).
+Proof. exact key_test_exact. Qed.
+Print Assumptions C10_key_test_exact.
+
+Theorem C10_key_test_bytewise :
+  forall hash160 script ts ck pub,
+    vs_script_tokens script = Some ts -> vs_key_in_pushes hash160 ck pub ts = true ->
+    exists k pre post, (k = ck \/ k = hash160 pub) /\ script = pre ++ k ++ post.
+Proof. exact key_test_bytewise. Qed.
+Print Assumptions C10_key_test_bytewise.
+
+(* the same with no assumption on key / hash sizes, but a hypothesis on the packet: the
+   classified script is not a malformed OP_0 program (address.GetScriptType does not look at
+   script[1]) *)
 Theorem C10_valid_only_if_partial :
   forall digest parse_pk der_ok verify hash160 v p i,
     vs_validate_input digest parse_pk der_ok verify hash160 v p i = VOk true ->
@@ -36,7 +65,7 @@ Theorem C10_prev_tx_matches :
 Proof. exact prev_tx_matches_always. Qed.
 Print Assumptions C10_prev_tx_matches.
 
-(* without the well-formed-program hypothesis the abstract statement fails (toy 1-byte key) *)
+(* with neither the size hypotheses nor wf_program the abstract statement fails (toy 1-byte key) *)
 Theorem C10_valid_only_if_refuted :
   ~ valid_only_if_statement toy_digest toy_parse_pk toy_der_ok toy_verify toy_hash160.
 Proof. exact valid_only_if_refuted. Qed.
@@ -49,12 +78,6 @@ Theorem C10_valid_only_if_refuted_malformed_program :
     ~ sig_genuine toy_digest toy_parse_pk toy_der_ok toy_verify toy_hash160 VsV2 pktM 0 inp s.
 Proof. exact valid_only_if_refuted_malformed_program. Qed.
 Print Assumptions C10_valid_only_if_refuted_malformed_program.
-
-Theorem C10_key_hex_match_not_bytewise :
-  exists script asm ck, vs_disasm script = Some asm /\
-    vs_is_infix (to_hex ck) asm = true /\ vs_is_infix ck script = false.
-Proof. exact key_hex_match_not_bytewise. Qed.
-Print Assumptions C10_key_hex_match_not_bytewise.
 
 (* the packets that refuted the statement before the fixes are rejected *)
 Theorem C10_former_witnesses_rejected :
@@ -118,19 +141,13 @@ Theorem C10_validate_all_only_if :
 Proof. exact validate_all_only_if. Qed.
 Print Assumptions C10_validate_all_only_if.
 
-(* panics: only address.GetScriptType's script[0] / script[2:] remain *)
-Theorem C10_no_panic_partial :
+(* no panic on parser-shaped packets, in full *)
+Theorem C10_no_panic_on_accepted_packets :
   forall digest parse_pk der_ok verify hash160 v p i,
-    accepted parse_pk p -> (i < length (svp_ins p))%nat ->
-    (forall inp, nth_error (svp_ins p) i = Some inp -> panic_guards v p i inp) ->
+    accepted p -> (i < length (svp_ins p))%nat ->
     forall site, vs_validate_input digest parse_pk der_ok verify hash160 v p i <> VPanic site.
-Proof. exact no_panic_partial. Qed.
-Print Assumptions C10_no_panic_partial.
-
-Theorem C10_no_panic_on_accepted_packets_refuted :
-  ~ no_panic_statement toy_digest toy_parse_pk toy_der_ok toy_verify toy_hash160.
-Proof. exact no_panic_statement_refuted. Qed.
-Print Assumptions C10_no_panic_on_accepted_packets_refuted.
+Proof. exact no_panic_on_accepted_packets. Qed.
+Print Assumptions C10_no_panic_on_accepted_packets.
 
 Theorem C10_former_panics_are_errors :
   vs_validate_input toy_digest toy_parse_pk toy_der_ok toy_verify toy_hash160 VsV0 pkt5 0 = VErr /\
@@ -138,6 +155,10 @@ Theorem C10_former_panics_are_errors :
   vs_validate_input toy_digest toy_parse_pk toy_der_ok toy_verify toy_hash160 VsV0 pkt6 0 = VOk false /\
   vs_validate_input toy_digest toy_parse_pk toy_der_ok toy_verify toy_hash160 VsV2 pkt6 0 = VOk false /\
   vs_validate_input toy_digest toy_parse_pk toy_der_ok toy_verify toy_hash160 VsV2
-    (mk_vpacket (tx_of [in_of [] 0] []) [mk_vinput None None None None [Some (mk_vsig (Some kA) [])] [] 0]) 0 = VErr.
+    (mk_vpacket (tx_of [in_of [] 0] []) [mk_vinput None None None None [Some (mk_vsig (Some kA) [])] [] 0]) 0 = VErr /\
+  vs_validate_input toy_digest toy_parse_pk toy_der_ok toy_verify toy_hash160 VsV0 (pkt7 []) 0 = VErr /\
+  vs_validate_input toy_digest toy_parse_pk toy_der_ok toy_verify toy_hash160 VsV2 (pkt7 []) 0 = VErr /\
+  vs_validate_input toy_digest toy_parse_pk toy_der_ok toy_verify toy_hash160 VsV0 (pkt7 [x00]) 0 = VErr /\
+  vs_validate_input toy_digest toy_parse_pk toy_der_ok toy_verify toy_hash160 VsV2 (pkt7 [x00]) 0 = VErr.
 Proof. exact former_panics_are_errors. Qed.
 Print Assumptions C10_former_panics_are_errors.
